@@ -455,6 +455,8 @@ pub enum StoreValidateError {
     #[error("imports.lock is out-of-date with respect to configuration")]
     #[diagnostic(help("run `cargo vet` without --locked to update imports"))]
     ImportsLockOutdated,
+    #[error("the criteria table in audits.toml is invalid: {0}")]
+    InvalidCriteriaTable(String),
 }
 
 #[derive(Debug, Error, Diagnostic)]
